@@ -53,8 +53,11 @@ class Ob:
     """
 
     def __init__(self, oid, kind="sound", clause=None, guard=True, valid=None, observables=None,
-                 fn=None, replayer=None, note=None, phi=None, timeout_ms=60000, extra=None, transform=None):
+                 fn=None, replayer=None, note=None, phi=None, timeout_ms=60000, extra=None, transform=None, twin=None):
         self.transform = transform  # callable(phi list) -> phi list (explicit witnesses for arrays/functions)
+        # 'complete' obligations between two builds of the same code: the assertion list `valid` stands for; its private
+        # constants are tried, by position, as the witness of phi's (quantifier-free query) before the quantified route
+        self.twin = twin
         self.id = oid
         self.kind = kind
         self.clause = clause
@@ -282,7 +285,14 @@ def decide(ob, ctx, path):
         else:
             lost = formula.forall(aux, z3.Not(z3.And(list(phi)))) if phi else z3.BoolVal(False)
             q = base + [valid, lost]
-            verdict, model, _ = formula.solve_shrunk(q, ob.timeout_ms, quantified=bool(aux))
+            verdict = None
+            if ob.twin is not None and aux:
+                inst = formula.positional_witness(list(phi), aux, list(ob.twin))
+                if inst is not None and formula.solve(base + [valid, z3.Not(z3.And(inst))], min(ob.timeout_ms, 20000), want_model=False)[0] == "unsat":
+                    verdict, model = "unsat", None
+                    res["positional_witness"] = True
+            if verdict is None:
+                verdict, model, _ = formula.solve_shrunk(q, ob.timeout_ms, quantified=bool(aux))
             res["status"] = verdict
             res["queries"] = 1
             res["aux"] = len(aux)
